@@ -425,8 +425,8 @@ func sqExec(toks []string) string {
 			return "bad-op"
 		}
 		return sqExecH(toks[1], n, toks[3:])
-	case "k":
-		return sqExecK(toks[1:])
+	case "k", "kc":
+		return sqExecK(toks)
 	}
 	return "bad-op"
 }
